@@ -15,6 +15,7 @@ PLAN = {
            + [("subgraph(any size)", c, "quick", 1, ("fresh", "source")) for c in ("MolGraph", "CondensedReactionGraph")]
            + [("subgraph(any size)", "StereoMolGraph", "quick", 1, ("fresh", "source"), 2), ("subgraph(any size)", "StereoCondensedReactionGraph", "quick", 1, ("fresh", "source"), 4)]
            + [("relabel_atoms(copy=True)", c, "quick", 1, ("fresh", "source")) for c in ("MolGraph", "CondensedReactionGraph")]
+           + [("relabel_atoms(copy=True)", "StereoMolGraph", "quick", 1, ("fresh", "source"), 2)]
            # the argument given as a one-shot iterator (bounded mode: <= 1 element)
            + [("subgraph", c, "quick", 1, ("fresh", "source")) for c in ("MolGraph", "CondensedReactionGraph")]
            + [("enantiomer", "StereoMolGraph", "quick", 1, ("fresh", "source")), ("enantiomer", "StereoCondensedReactionGraph", "quick", 1, ("fresh", "source"), 4)],
@@ -27,7 +28,8 @@ PLAN = {
     # 7th field: number of loops under invariant -> one task per loop (init + generic step) and one for the loop-free remainder
     "C06": [("enantiomer", "StereoMolGraph", "quick", 1, ("view", "wf", "fresh", "source")),
             ("enantiomer", "StereoCondensedReactionGraph", "quick", 1, ("view", "wf", "fresh", "source"), 4)],
-    "C11": [("relabel_atoms(copy=True)", c, "quick", 1, ("view", "wf", "source")) for c in ("MolGraph", "CondensedReactionGraph")],
+    "C11": [("relabel_atoms(copy=True)", c, "quick", 1, ("view", "wf", "source")) for c in ("MolGraph", "CondensedReactionGraph")]
+           + [("relabel_atoms(copy=True)", "StereoMolGraph", "quick", 1, ("view", "wf", "source"), 2)],
 }
 
 
